@@ -523,6 +523,7 @@ def pairing_blocking(ctx, fi):
                "divides by its own block weight", ok_blocks, why, fi)
     # slice is [j*i : (j+1)*i] of block size i, nBlocks = nSamples // i
     ok_geo = False
+    geo_unread = False      # the slice bounds are not written as products of the block index and the block size
     if bw_name is not None:
         lo, hi = sl_w.args[0], sl_w.args[1]
 
@@ -549,6 +550,11 @@ def pairing_blocking(ctx, fi):
 
         pl, ph = poly(lo), poly(hi)
         m1 = None
+        _ju = strip_wrappers(j_w).uid
+        if not any(_ju in mono_ for mono_ in list(pl) + list(ph)):
+            # bounds taken from a precomputed edge sequence (pairwise(range(0, n + 1, i)), zip(edges[:-1], edges[1:]) ...):
+            # the geometry is in that sequence, which this rule does not read
+            geo_unread = True
         if len(pl) == 1 and list(pl.values()) == [1] and len(next(iter(pl))) == 2:
             mono = next(iter(pl))
             ju = strip_wrappers(j_w).uid
@@ -585,7 +591,10 @@ def pairing_blocking(ctx, fi):
         pn = m_binop(strip_wrappers(n_w), "*")
         ok_geo = q is not None and strip_wrappers(q[1]) is iv and pn is not None and \
             {strip_wrappers(pn[0]).uid, strip_wrappers(pn[1]).uid} == {strip_wrappers(d0).uid, iv.uid} and not strided
-    if bw_name is not None or vec is not None:
+    if geo_unread and vec is None:
+        ctx.rep.note("blocking_analysis: the block slice bounds are not expressions of the block index; the consecutive-slices "
+                     "rule (PAIR-4) is not applied to this shape of the code")
+    elif bw_name is not None or vec is not None:
         ctx.ob("PAIR-4", "blocking_analysis: blocks are consecutive slices [j*i, (j+1)*i) and nBlocks = nSamples // i",
                ok_geo, (f"blocks are strided, not consecutive: {strided[:2]}" if strided else ""), fi)
     # error = sqrt( sum(bw * (be - mean)^2) / (v1 - v2/v1) / (nBlocks - 1) )
